@@ -24,6 +24,17 @@ CHECKS = {
              "equal to the prediction.",
         design="6 (C01), 3.4, 3.5", technique="TLA+ generator+analysis model, TLC exhaustive kernels and simulation, replay into the parser, trace validation",
         note=DOC_NOTE),
+    "C02": dict(
+        text="CookDoc separates the syntax that is written (Syntax) from the extensions the parser has on (Ext); CookAnalysis "
+             "and the reading rules of CookDoc are parameterised by Ext. Core-syntax documents (the generator records which of "
+             "the reinterpreted constructs each document uses; those using none are kept) are parsed under all 192 closed "
+             "subsets of the eight flags: TLC judges every parse equal to the predicted recipe and error free "
+             "(spec/Trace_Doc.tla) and the serde_json images of one document equal across subsets (spec/Trace_Subsets.tla). "
+             "Conversely documents using exactly one extension's syntax (alias, range, unit without %, bracketed key, inline "
+             "quantity, timer without duration, intermediate reference) are parsed under every subset lacking it and must "
+             "equal the core reading the specification predicts with that extension off.",
+        design="6 (C02)", technique="TLA+ generator with Syntax/Ext split + TLC simulation + replay under all extension subsets + trace validation",
+        note=DOC_NOTE),
     "C03": dict(
         text="The public API is specified as a typestate protocol (spec/CookApi.tla: parse -> result -> scalable -> scaled, "
              "with the consumers each state allows); TLC enumerates every program of the protocol up to a call bound and "
@@ -83,6 +94,27 @@ CHECKS = {
         design="6 (C12), 3.10", technique="TLA+ transcription of the approximation + TLC exhaustive grid + trace validation of recorded results",
         note="Trusted: TLC; IEEE-754 facts (exactness within 4 ulp, error bound, integrality) are computed by the harness "
              "because TLC has no floating point; accuracies are whole percents in the model."),
+    "C07": dict(
+        text="Soundness: every well-formed generated document (C01 corpus) must yield nothing but the documented deprecation "
+             "notice. Completeness: CookDoc injects one cataloged invalid construct (27 parse-stage and 13 analysis-stage "
+             "variants covering the 13 kinds of the property, including references that break a rule with respect to an "
+             "existing definition) at every position of an exhaustive defect kernel and at random positions of the walks, "
+             "and predicts severity, stage, class and the byte span of the construct; TLC judges that such a diagnostic "
+             "exists and that its first label touches the span. Validity <=> output and no error, parse errors suppress "
+             "output and analysis diagnostics, analysis errors keep the output: invariants of CookAnalysis and clauses "
+             "judged on every record.",
+        design="6 (C07)", technique="TLA+ defect-injecting generator + TLC exhaustive kernel/simulation + trace validation of diagnostics",
+        note=DOC_NOTE + " Replay of the defect kernel is stratified per defect class at the quick tier."),
+    "C17": dict(
+        text="For every finished document CookDoc also prints 13 variants built from marks the generator itself places "
+             "(item separators, block starts, Cooklang line ends, fences): CRLF, trailing comments/blanks/tabs, block "
+             "comments between items, extra blank / blank-padded / comment-only lines between blocks, blanks after the "
+             "front matter fences. Base and variants are parsed by the real library and TLC judges the projected recipes "
+             "and validity equal (spec/Trace_Variants.tla); CRLF replacement is also applied to every plain corpus input "
+             "without a backslash or lone CR. The lexer/blocks models carry the design-level facts (CR LF is one newline "
+             "token, comments are tokens).",
+        design="6 (C17)", technique="TLA+ generator printing metamorphic variants + TLC simulation + trace validation of paired parses",
+        note=DOC_NOTE),
 }
 
 NOT_YET = "check not built yet in this session (work in progress, see DESIGN.md section 10)"
